@@ -887,6 +887,56 @@ def r11o(an: Analysis, rep, rule="R11.O"):
              f"[{bad[0][0]}] the defined opcodes {bad[0][3]} are refused"))
 
 
+def r11n(an: Analysis, rep, rule="R11.N"):
+    """The members of the flag enumeration are CPython's flag names with CPython's values: the member list is folded per interpreter version with the reference
+    tables standing in for `dis.COMPILER_FLAG_NAMES` and `__future__` (parsed from each stdlib) and compared name by name - a hand-written table in which two
+    values are exchanged converts flags and names consistently in both directions (the round trip stays green) and calls every coroutine an async generator."""
+    from sa.feval import BlockEval as PureEval, FevalError
+    rep.rule(rule, "every member of the flag enumeration has the value CPython gives that flag, on every interpreter version", 1)
+    site = None
+    for m in an.prog.modules.values():
+        if m.is_test or not m.name.startswith("code_data"):
+            continue
+        for nm, exprs in m.assigns.items():
+            for e in exprs:
+                if isinstance(e, ast.Call) and norm_src(e.func).split(".")[-1] in ("IntFlag", "Flag") and len(e.args) >= 2:
+                    site = (m, nm, e)
+    if site is None:
+        raise AnalysisError("functional definition of the flag enumeration (enum.IntFlag(name, members)) not found")
+    m, nm, e = site
+    bad = []
+    for V in VERSIONS:
+        ref = reference(V)
+        names = {int(k): v for k, v in ref["COMPILER_FLAG_NAMES"].items()}
+        fut = dict(ref["future_flags"])
+
+        class _Feature(dict):
+            pass
+        future = {n: {"compiler_flag": v} for n, v in fut.items()}
+        future["all_feature_names"] = list(ref["future_features"])
+        pe = PureEval(lambda name: None, extra={"dis": {"COMPILER_FLAG_NAMES": names}, "__future__": future, "getattr": lambda o, n, *d: o[n] if n in o or not d else d[0]})
+        pe.module_assigns = m.assigns
+        pe.MAX_ITER = 256
+        try:
+            members = pe.ev(e.args[1], {})
+            members = list(members.items()) if isinstance(members, dict) else list(members)
+            got = {str(k): int(v) for k, v in members}
+        except (FevalError, KeyError, TypeError, ValueError) as ex:
+            raise AnalysisError(f"{m.name}: the members of {nm} are not foldable under {vname(V)} ({ex})")
+        want = {v: k for k, v in names.items()}
+        want.update({n: v for n, v in fut.items() if n in got})
+        for n_, v_ in sorted(got.items()):
+            if n_ in want and want[n_] != v_:
+                bad.append(f"[{vname(V)}] {n_} = {v_:#x}, CPython's CO_{n_} is {want[n_]:#x}")
+        for n_ in sorted(set(want) - set(got)):
+            if n_ in {v for v in names.values()}:
+                bad.append(f"[{vname(V)}] CPython's flag {n_} ({want[n_]:#x}) is not a member")
+    rep.add(rule, f"{m.name}::{nm} members carry CPython's values", not bad, loc(m, e),
+            "every compiler flag and every __future__ flag has CPython's value on 3.7 - 3.10" if not bad else
+            f"{bad[0]}" + (f" (and {len(bad) - 1} more)" if len(bad) > 1 else "") + ": flags and names are converted consistently in both directions, so co_flags round-trips - but the name the data "
+            f"shows for a bit is another flag's (an `async def` decodes as ASYNC_GENERATOR)")
+
+
 def r117(an: Analysis, rep):
     """The decoder rejects argument names on non-function code through the truthiness of Args: that is only a guard if len(args) counts every kind."""
     it, _ = an.interp("from_code")
@@ -1021,6 +1071,12 @@ def run(an: Analysis, rep):
     for V in VERSIONS:
         rep.run(_c01r.r012, an, shr2, V)
     rep.run(r11o, an, rep)
+    rep.run(r11n, an, rep)
+    from . import c09 as _c09t
+    rep.run(_c09t.seed_rules, an, _SR(rep, "R11.G", "what the decoder pre-marks in a table is what the encoder pre-assigns (shared with C09's R09.2): a local pre-marked by mistake and used by no "
+                                                    "instruction is not listed as unreferenced - co_varnames and co_nlocals shrink, silently"))
+    rep.run(_c09t.table_sequences_rule, an, _SR(rep, "R11.B", "the decoder's table bookkeeping keeps a repeated entry at its position (shared with C09's R09.7): a hand-altered table with a repeated name "
+                                                             "must not come back one entry short"))
     from . import c10, c13
     from .common import SharedRules as _SR
     rep.run(c10.r106_progress, an, rep, "R11.H")
